@@ -30,6 +30,8 @@ type amr struct {
 	// spawn site). emptyRets: returns in such blocks that are taken only for an empty payload.
 	pre       map[*ssa.BasicBlock]bool
 	emptyRets map[*ssa.Return]bool
+
+	note string // appended to the reasons of violations (context of a re-used sub-check)
 }
 
 // setPre computes pre and emptyRets from the spawn sites (instructions of the helper's body).
@@ -295,7 +297,7 @@ func (a *amr) bad(ob, construct string, at ssa.Instruction, why string) {
 			site = a.r.P.pos(at.Parent().Pos())
 		}
 	}
-	a.r.Bad(a.rule+"."+ob, fn, construct, site, why)
+	a.r.Bad(a.rule+"."+ob, fn, construct, site, why+a.note)
 }
 func (a *amr) ok(ob, construct string, at ssa.Instruction, why string) {
 	site := "-"
@@ -672,6 +674,13 @@ func ruleAMR(r *Run) {
 	}
 	Sr := redCalls[0]
 	R := Sr.Parent()
+	if R == fn && len(wgAdd)+len(wgDone)+len(wgWait) == 0 && len(gos) == 1 {
+		// no reducer goroutine and no wait group: the caller itself collects one
+		// acknowledgement per item and reduces between the receives
+		a.collectorForm(&collectorIn{S: S, W: W, G: G, Gtop: Gtop, Sr: Sr, lp: lp, loop: loop, cRes: cRes, cErr: cErr,
+			sends: sends, selects: selects, recvs: recvs, closes: closes, makeChans: makeChans, chanOf: chanOf})
+		return
+	}
 	if R == W || R == fn {
 		a.bad("A3", "reduce-context", Sr, "reduceFunc is not called from a dedicated reducer goroutine (called from a worker or the caller): reductions can overlap or run concurrently with workers")
 		return
@@ -1235,7 +1244,7 @@ func (a *amr) itemIteratorOf(site ssa.CallInstruction) *itemIterator {
 }
 
 // payloadLoop checks that the spawn G is executed exactly once for every index of payload.
-func (a *amr) payloadLoop(G ssa.CallInstruction, loop map[*ssa.BasicBlock]bool) *payloadLoop {
+func (a *amr) payloadLoop(G ssa.Instruction, loop map[*ssa.BasicBlock]bool) *payloadLoop {
 	if len(loop) == 0 {
 		a.bad("A1", "spawn-not-in-loop", G, "the worker is not spawned inside a loop over payload")
 		return nil
@@ -1294,6 +1303,11 @@ func (a *amr) payloadLoop(G ssa.CallInstruction, loop map[*ssa.BasicBlock]bool) 
 			exits := 0
 			for _, s := range b.Succs {
 				if !loop[s] {
+					// the `panic("blocking select matched no case")` arm go/ssa adds to a select
+					// dispatch (or any other panic) is not a way to leave the loop quietly
+					if _, isPanic := s.Instrs[len(s.Instrs)-1].(*ssa.Panic); isPanic {
+						continue
+					}
 					exits++
 				}
 			}
@@ -1335,7 +1349,9 @@ func (a *amr) payloadLoop(G ssa.CallInstruction, loop map[*ssa.BasicBlock]bool) 
 		a.bad("A1", "loop-induction", iff, "loop index is not a simple induction variable")
 		return nil
 	}
-	okInd := len(phi.Edges) == 2
+	// every edge from outside the loop carries the initial value, every back edge (there can be
+	// several: each select case may jump back on its own) carries index+1
+	okInd := len(phi.Edges) >= 2
 	if okInd {
 		nInit, nStep := 0, 0
 		for i, e := range phi.Edges {
@@ -1343,14 +1359,18 @@ func (a *amr) payloadLoop(G ssa.CallInstruction, loop map[*ssa.BasicBlock]bool) 
 			if !loop[pred] {
 				if isIntConst(e, init) {
 					nInit++
+				} else {
+					okInd = false
 				}
 			} else {
 				if add, ok := e.(*ssa.BinOp); ok && add.Op == token.ADD && add.X == ssa.Value(phi) && isIntConst(add.Y, 1) {
 					nStep++
+				} else {
+					okInd = false
 				}
 			}
 		}
-		okInd = nInit == 1 && nStep == 1
+		okInd = okInd && nInit >= 1 && nStep >= 1
 	}
 	if !okInd {
 		a.bad("A1", "loop-induction", iff, "loop index does not start at the first element and advance by one: items skipped or repeated")
